@@ -22,6 +22,7 @@ Suppressions:
 """
 
 from collections.abc import Generator
+from functools import lru_cache
 from typing import Any
 
 from src.analyzers.typescript_base import TREE_SITTER_AVAILABLE
@@ -46,14 +47,19 @@ def is_single_statement(content: str, start_line: int, end_line: int) -> bool:
     if not TREE_SITTER_AVAILABLE:
         return False
 
-    from src.analyzers.typescript_base import TypeScriptBaseAnalyzer
-
-    analyzer = TypeScriptBaseAnalyzer()
-    root = analyzer.parse_typescript(content)
+    root = _parse_cached(content)
     if not root:
         return False
 
     return _check_overlapping_nodes(root, start_line, end_line)
+
+
+@lru_cache(maxsize=2)
+def _parse_cached(content: str) -> Any:
+    """Parse a file once; the caller asks about every window of the same content."""
+    from src.analyzers.typescript_base import TypeScriptBaseAnalyzer
+
+    return TypeScriptBaseAnalyzer().parse_typescript(content)
 
 
 def should_include_block(content: str, start_line: int, end_line: int) -> bool:
@@ -67,8 +73,14 @@ def should_include_block(content: str, start_line: int, end_line: int) -> bool:
     Returns:
         False if block overlaps interface definition, True otherwise
     """
-    interface_ranges = _find_interface_ranges(content)
-    return not _overlaps_interface(start_line, end_line, interface_ranges)
+    interface_ranges = _find_interface_ranges_cached(content)
+    return not _overlaps_interface(start_line, end_line, list(interface_ranges))
+
+
+@lru_cache(maxsize=2)
+def _find_interface_ranges_cached(content: str) -> tuple[tuple[int, int], ...]:
+    """Interface ranges of a file, computed once per content."""
+    return tuple(_find_interface_ranges(content))
 
 
 def _check_overlapping_nodes(root: Node, start_line: int, end_line: int) -> bool:
@@ -76,18 +88,25 @@ def _check_overlapping_nodes(root: Node, start_line: int, end_line: int) -> bool
     ts_start = start_line - 1  # Convert to 0-indexed
     ts_end = end_line - 1
 
-    return any(_node_overlaps_and_matches(node, ts_start, ts_end) for node in _walk_nodes(root))
+    return any(
+        _node_overlaps_and_matches(node, ts_start, ts_end)
+        for node in _walk_nodes(root, ts_start, ts_end)
+    )
 
 
-def _walk_nodes(node: Node) -> Generator[Node, None, None]:
-    """Generator to walk all nodes in tree (pre-order, iterative).
+def _walk_nodes(node: Node, ts_start: int, ts_end: int) -> Generator[Node, None, None]:
+    """Generator to walk the nodes overlapping lines ts_start..ts_end (pre-order, iterative).
 
     A recursive generator costs O(depth) per yielded node, which made deeply nested
-    code (e.g. a long else-if chain) take minutes.
+    code (e.g. a long else-if chain) take minutes. Subtrees that do not overlap the line
+    range cannot contain an overlapping node and are skipped, otherwise every window
+    re-walks the whole file (quadratic in file length).
     """
     stack = [node]
     while stack:
         current = stack.pop()
+        if current.end_point[0] < ts_start or current.start_point[0] > ts_end:
+            continue
         yield current
         stack.extend(reversed(current.children))
 
